@@ -1376,6 +1376,25 @@ class LangServer:
 
     def serve_onOpen(self, request: dict):
         self.serve_onSave(request, did_open=True)
+        # The text sent by the client is the content of the document, it may differ
+        # from the file on disk (unsaved buffer) or the file may not exist yet
+        text_doc: dict = request["params"]["textDocument"]
+        text = text_doc.get("text")
+        file_obj = self.workspace.get(path_from_uri(text_doc["uri"]))
+        if not isinstance(text, str) or file_obj is None:
+            return
+        # Nothing to do if the buffer read from disk already holds this text
+        lines = text.splitlines()
+        if file_obj.contents_split in (lines, lines + [""]):
+            return
+        self.serve_onChange(
+            {
+                "params": {
+                    "textDocument": {"uri": text_doc["uri"]},
+                    "contentChanges": [{"text": text}],
+                }
+            }
+        )
 
     def serve_onClose(self, request: dict):
         self.serve_onSave(request, did_close=True)
